@@ -99,6 +99,23 @@ pub fn has_tag(case: &Case, tag: &str) -> bool {
         }),
         // every variable continuous (an LP)
         "continuous" => m.is_continuous(),
+        // bound propagation inside the builder / compiler front door narrows some continuous
+        // variable to a sliver (narrower than 1e-6 relative, but not a point): the linear
+        // model handed to the solver is then numerically on a tolerance edge although the
+        // source model is not
+        "propagation-pins-continuous-variable" => {
+            let (b, _) = crate::solvers::to_builder(m);
+            match std::panic::catch_unwind(std::panic::AssertUnwindSafe(|| b.linearize())) {
+                Ok(Ok(lm)) => lm.domain().values().any(|d| match d.get_type() {
+                    rooc::VariableType::Real(lo, hi) | rooc::VariableType::NonNegativeReal(lo, hi) => {
+                        let w = hi - lo;
+                        w > 0.0 && w < 1e-6 * lo.abs().max(1.0)
+                    }
+                    _ => false,
+                }),
+                _ => false,
+            }
+        }
         "has-equality-or-free" => {
             m.vars.iter().any(|v| matches!(v.dom, Dom::Real { .. }))
         }
